@@ -65,7 +65,7 @@ func (idx Index) Run(
 
 	// Always check all upstream stages.
 	for artPath, art := range stg.Inputs {
-		ownerPath, _ := idx.findOwner(artPath)
+		ownerPath, upstreamArt := idx.findOwner(artPath)
 		if ownerPath == "" {
 			artStatus, err := ch.Status(rootDir, *art, true)
 			if err != nil {
@@ -82,6 +82,11 @@ func (idx Index) Run(
 			if ran[ownerPath] {
 				doRun = true
 				runReason = "upstream stage out-of-date"
+			} else if art.Checksum != upstreamArt.Checksum {
+				// The upstream Artifact was regenerated and committed since
+				// this Stage last recorded it.
+				doRun = true
+				runReason = "input out-of-date"
 			}
 		}
 	}
